@@ -33,3 +33,18 @@ Theorem C02_declared_order : forall k ops, history_ok k ops = true ->
     StronglySorted (akey_lt k) keys.
 Proof. exact declared_order. Qed.
 Print Assumptions C02_declared_order.
+
+(* the regenerated tie: the closures all() and backward() of tree.go return, translated from the Go AST on every run
+   (Gen/IterGen.v) and run with the consumer ans, ARE the stack machine Model.Iter.walk of run_all / run_backward on
+   the abstracted tree -- for EVERY budget: same calls, same delivered leaves, same status (ires_abs reads
+   ByReturn / ByBreak / ByEnd / ByFuel as WStopped / WBroke / WDone / WFuel); in particular no panic.
+   Hypothesis: the raw invariant xstep_sim runs under (TranslateTreeFacts.hyps_reachable) *)
+From GoArt Require Import Model.Iter Model.PoolTree Proofs.PoolTreeFacts Model.GoTree Gen.IterGen Proofs.TranslateIterFacts.
+Theorem C02_regenerated_all : forall fuel t ans, xtwf t ->
+  ires_abs (g_all fuel (Some t) ans) = Some (walk (fun _ => Deliver) expand_fwd fuel [(tabs t, 0%nat)] ans 0 []).
+Proof. exact gen_all_eq. Qed.
+Print Assumptions C02_regenerated_all.
+Theorem C02_regenerated_backward : forall fuel t ans, xtwf t ->
+  ires_abs (g_backward fuel (Some t) ans) = Some (walk (fun _ => Deliver) expand_bwd fuel [(tabs t, 0%nat)] ans 0 []).
+Proof. exact gen_backward_eq. Qed.
+Print Assumptions C02_regenerated_backward.
